@@ -17,8 +17,8 @@ RULE = ("every function of the closed scope list (35 functions of tx/props/sat/i
         "and then of every argument; non-trivial = argument with >= 3 nodes; distinct = (function, circuit, parameters)")
 EXPLANATION = ("effect summaries regenerated from the source are proved safe in the store model (frame theorem); each call on real circuits is "
                "snapshotted before/after, scanned for shared mutable objects, and re-snapshotted after edits of either side")
-SHARD = 40
-HASHSEEDS = {"quick": [0], "thorough": [0, 1, 2]}
+SHARD = 128
+HASHSEEDS = {"quick": [0], "thorough": [0, 1]}
 
 
 def _scope():
@@ -68,7 +68,7 @@ def gen_case(rng, fn, tier):
 
 
 def generate(rng, tier):
-    per = 4 if tier == "quick" else 36
+    per = 4 if tier == "quick" else 30
     return [gen_case(rng, fn, tier) for fn in SCOPE for _ in range(per)]
 
 
